@@ -53,6 +53,11 @@ func su(i int) *url.URL {
 
 var base = clock.Date(2012, 3, 4, 5, 6, 7, 0, clock.UTC)
 
+// stickyMode: the rebalancer is built with session affinity and EVERY request carries a valid affinity cookie naming
+// a current member (traffic of returning clients only). Affinity decides where a request goes, not whether the
+// rebalancer reacts to what its meters say: every obligation of the property stays as it is.
+var stickyMode bool
+
 func newSys(backoff time.Duration, initial []int) *sys {
 	clock.Freeze(base)
 	s := &sys{backoff: backoff, current: -1}
@@ -67,13 +72,17 @@ func newSys(backoff time.Duration, initial []int) *sys {
 		panic(err)
 	}
 	s.rr = rr
-	rb, err := roundrobin.NewRebalancer(rr, roundrobin.RebalancerBackoff(backoff), roundrobin.RebalancerMeter(func() (roundrobin.Meter, error) {
+	ropts := []roundrobin.RebalancerOption{roundrobin.RebalancerBackoff(backoff), roundrobin.RebalancerMeter(func() (roundrobin.Meter, error) {
 		m := &scriptMeter{ready: true}
 		if s.current >= 0 {
 			s.meters[s.current] = m
 		}
 		return m, nil
-	}))
+	})}
+	if stickyMode {
+		ropts = append(ropts, roundrobin.RebalancerStickySession(roundrobin.NewStickySession("sid")))
+	}
+	rb, err := roundrobin.NewRebalancer(rr, ropts...)
 	if err != nil {
 		panic(err)
 	}
@@ -205,7 +214,11 @@ func (s *sys) request(ratings [nServers]float64, notReady int) (string, []verdic
 	before := s.weights()
 	inv := s.served
 	rec := httptest.NewRecorder()
-	s.rb.ServeHTTP(rec, httptest.NewRequest("GET", "http://client/", nil))
+	req := httptest.NewRequest("GET", "http://client/", nil)
+	if stickyMode && len(mem) > 0 {
+		req.AddCookie(&http.Cookie{Name: "sid", Value: su(mem[len(mem)-1]).String()})
+	}
+	s.rb.ServeHTTP(rec, req)
 	after := s.weights()
 	now := clock.Now()
 	obs := fmt.Sprintf("%v->%v", before, after)
@@ -255,7 +268,7 @@ func (s *sys) invariant() []verdict {
 }
 
 type opDesc struct {
-	kind     int // 0 req, 1 advance, 2 upsert, 3 remove
+	kind     int // 0 req, 1 advance, 2 upsert, 3 remove, 4 refused upsert
 	ratings  [nServers]float64
 	notReady int
 	d        time.Duration
@@ -315,12 +328,19 @@ func alphabet(backoff time.Duration, tier string) ([]string, []opDesc) {
 		names = append(names, fmt.Sprintf("Remove(s%d)", i+1))
 		descs = append(descs, opDesc{kind: 3, srv: i})
 	}
+	// an administration call that is REFUSED (invalid weight): neither membership nor any configured weight changes,
+	// so nothing else may - the effective weights stay where the last adjustment put them
+	names = append(names, "UpsertRefused(s1,w=-1)")
+	descs = append(descs, opDesc{kind: 4, srv: 0})
 	return names, descs
 }
 
 func model(backoff time.Duration, tier string) *lib.Model[*sys] {
 	names, descs := alphabet(backoff, tier)
 	m := &lib.Model[*sys]{Name: fmt.Sprintf("rebalancer/backoff=%v", backoff), Ops: names, Deadline: lib.Deadline}
+	if stickyMode {
+		m.Name += "/all-requests-carry-an-affinity-cookie"
+	}
 	m.New = func() *sys { return newSys(backoff, nil) }
 	m.Apply = func(s *sys, op int) string {
 		d := descs[op]
@@ -342,6 +362,18 @@ func model(backoff time.Duration, tier string) *lib.Model[*sys] {
 			obs = fmt.Sprint(err)
 			if err == nil {
 				vs = s.afterMembershipChange("Remove")
+			}
+		case 4:
+			before := s.weights()
+			u := su(d.srv)
+			err := s.rb.UpsertServer(u, roundrobin.Weight(-1))
+			lib.ReuseURL(u)
+			after := s.weights()
+			obs = fmt.Sprintf("refused=%v", err != nil)
+			if err == nil {
+				vs = append(vs, verdict{"C10:invalid-weight-accepted", "UpsertServer(s, Weight(-1)) reported success"})
+			} else if before != after {
+				vs = append(vs, verdict{"C10:refused-call-changed-effective-weights", fmt.Sprintf("UpsertServer(s%d, Weight(-1)) was refused (%v), yet the effective weights went from %v to %v (configured %v): neither membership nor a configured weight has changed", d.srv+1, err, before, after, s.configured)})
 			}
 		}
 		for _, v := range vs {
@@ -425,7 +457,7 @@ func model(backoff time.Duration, tier string) *lib.Model[*sys] {
 		}
 		for _, part := range strings.Split(o, " !!")[1:] {
 			p := strings.SplitN(part, "!!", 2)
-			rep.Violate(p[0], p[1], map[string]any{"engine": "xstate", "part": "c10", "backoff_ns": int64(backoff), "tier": tier, "ops": m.OpNames(hist), "observations": obs})
+			rep.Violate(p[0], p[1], map[string]any{"engine": "xstate", "part": "c10", "backoff_ns": int64(backoff), "tier": tier, "sticky": stickyMode, "ops": m.OpNames(hist), "observations": obs})
 		}
 	}
 	m.Check = func(s *sys, hist []int, obs []string, rep *lib.Report) {
@@ -453,7 +485,7 @@ func continuations(m *lib.Model[*sys], s0 *sys, backoff time.Duration, tier stri
 		return
 	}
 	what := func(c string) map[string]any {
-		return map[string]any{"engine": "xstate", "part": "c10", "backoff_ns": int64(backoff), "tier": tier, "ops": m.OpNames(hist), "continuation": c}
+		return map[string]any{"engine": "xstate", "part": "c10", "backoff_ns": int64(backoff), "tier": tier, "sticky": stickyMode, "ops": m.OpNames(hist), "continuation": c}
 	}
 	step := backoff + time.Millisecond
 	// (a) a persistent outlier loses share within two back-off intervals
@@ -553,11 +585,25 @@ func Run(tier string, sh lib.Shard, rep *lib.Report) {
 		}
 		rep.Sample(2, map[string]any{"model": m.Name, "result": r.Describe()})
 	}
+	// the same model where every request carries an affinity cookie: histories up to a depth bound
+	stickyMode = true
+	ms := model(time.Second, tier)
+	ms.MaxDepth = 3
+	if tier == "thorough" {
+		ms.MaxDepth = 5
+	}
+	rs := ms.RunDistributed(rep, sh, os.Getenv("VERIF_GANG_DIR"))
+	stickyMode = false
+	rep.Bounds[ms.Name] = rs.Describe()
+	rep.Count("searches_with_affinity_cookies_on_every_request")
+	rep.Require("searches_with_affinity_cookies_on_every_request")
 	rep.Nontrivial = rep.Counters["adjustments"]
 }
 
 func Replay(rp map[string]any) (bool, string) {
 	tier, _ := rp["tier"].(string)
+	stickyMode = rp["sticky"] == true
+	defer func() { stickyMode = false }()
 	m := model(time.Duration(int64(rp["backoff_ns"].(float64))), tier)
 	hist, err := m.ParseOps(rp["ops"])
 	if err != nil {
